@@ -612,6 +612,20 @@ def run_scenario(spec):
             w.set_upstream(upd)
             if st.get('commit', True): w.commit()
             up = w.upstream()
+            if st.get('materialize') and spec['kind'] == 'dir' and w.overlay_dir and os.path.isdir(w.overlay_dir):
+                # `overlay edit --materialize` between the upstream update and the rebase: it may add files the overlay
+                # lacks (copies of the current upstream); the recorded baseline of the EXISTING overlay - the revision
+                # its edits were made against - and its existing files must stay as they are
+                pre_m = observe(w, R); snap_m = w.snapshot()
+                rc_m, doc_m = w.cli_json(['overlay', 'edit', MODULE_ID, '--scope', spec['scope'], '--materialize', '--yes'])
+                post_m = observe(w, R); snap_m2 = w.snapshot()
+                if doc_m.get('ok') and pre_m['baseline'] is not None:
+                    if (post_m['baseline'] or {}).get('raw_rev') != pre_m['baseline'].get('raw_rev') or (post_m['baseline'] or {}).get('manifest') != pre_m['baseline']['manifest']:
+                        R.viol.append(('overlay edit --materialize moved the recorded baseline of an existing overlay (the next rebase merges against the wrong base: upstream edits to files the overlay changed are dropped silently)',
+                                       {'scenario': spec['name'], 'kind': spec['kind'], 'step': k, 'before': pre_m['baseline'].get('raw_rev'), 'after': (post_m['baseline'] or {}).get('raw_rev')}))
+                    changed_m = sorted(q for q in snap_m if not q.startswith('.agentpack/') and snap_m2.get(q) != snap_m[q])
+                    if changed_m:
+                        R.viol.append(('overlay edit --materialize changed existing overlay files', {'scenario': spec['name'], 'files': changed_m}))
             seq = []
             if st.get('noyes'): seq.append(('noyes', False, False))
             if st.get('dry_noyes'): seq.append(('dry_noyes', True, False))
@@ -986,6 +1000,32 @@ def neighbours_violate(ctx, case):
             break
     return found
 
+def materialize_stream(ctx, n):
+    """`overlay edit --materialize` between an upstream update and the rebase (dir overlays): it may add copies of
+    upstream files the overlay lacks, but the recorded baseline of an existing overlay - the revision its edits were
+    made against - and its existing files stay. Judged by these two predicates only (the scenario model does not
+    thread the extra command)."""
+    import concurrent.futures
+    rng = ctx.rng
+    specs = []
+    for i in range(n):
+        sp = gen_spec(rng, 100000 + i, kind='dir', quick=True)
+        for st in sp['steps']:
+            st['materialize'] = True; st['noyes'] = False; st['dry_first'] = False; st['second'] = False
+        specs.append(sp)
+    def job(sp):
+        try: return run_scenario(sp)
+        except InfraError: return None
+    with concurrent.futures.ThreadPoolExecutor(max_workers=8) as ex:
+        results = list(ex.map(job, specs))
+    for sp, R in zip(specs, results):
+        if R is None:
+            ctx.count('materialize', key=('infra', sp.get('name')), nontrivial=False, tags=['skipped']); continue
+        ctx.count('materialize', key=(len(sp['steps']), sp.get('name')), tags=['steps:%d' % len(sp['steps'])])
+        for what, extra in R.viol:
+            if what.startswith('overlay edit --materialize'):
+                ctx.violation(what, {'stream': 'materialize', 'spec': sp, 'detail': extra})
+
 def run(ctx):
     quick = ctx.tier == 'quick'
     ctx.rule = ('scenario = git-backed config repo (aphome / default ~/.agentpack / AGENTPACK_HOME=~/.agentpack) with one local_path skill module of 3-7 files, '
@@ -1021,6 +1061,7 @@ def run(ctx):
             ctx.known_finding('K14b', Rk.known[0][1])
     else:
         ctx.notes.append('K14b witness no longer reproduces')
+    materialize_stream(ctx, 24 if quick else 200)
     # corpus: repaired defects and minimised past failures
     corpus = corpus_specs()
     names = {c['name'] for c in corpus}
